@@ -1229,7 +1229,8 @@ func vfC14Edge(t *testing.T, r *vkit.Run) {
 		}
 	}
 	full := func(tag string) {
-		report(c.checkState(tag, -1, probe))
+		hist = append(hist, "<check:"+tag+">")
+		report(c.checkState("edge", -1, probe))
 		// persist check on a copy built by load (the check mutates addresses)
 		fs, _ := c.checkPersist()
 		report(fs)
